@@ -1,4 +1,5 @@
 """C02 — all for-each-client backends equal the sequential per-client fold."""
+import contextvars
 import queue
 import threading
 from fractions import Fraction
@@ -64,6 +65,11 @@ class C02(core.Property):
   def gen_cases(self, rng, tier):
     n_prog = 45 if tier == 'quick' else 400
     n_sched = 150 if tier == 'quick' else 3000
+    n_leafless = 9 if tier == 'quick' else 60
+    for i in range(n_leafless):
+      yield {'leafless': ['noinput', 'nostate', 'both'][i % 3], 'backend': ['pmap', 'pmap', 'jit', 'debug', 'pmap'][i % 5],
+             'D': rng.randrange(1, min(8, self.ndev) + 1), 'shared': rng.choice([1, 2, -1, 3]),
+             'clients': [[100 + c, [rng.choice(VALS) for _ in range(rng.choice([0, 1, 2, 3]))]] for c in range(rng.choice([1, 2, 3, 5]))]}
     for i in range(max(n_prog, n_sched)):
       if i < n_sched:
         yield self._gen_sched(rng)
@@ -96,14 +102,14 @@ class C02(core.Property):
     deco_arg = rng.choice([1, 2, 3, 10])  # few distinct args so the same decorated object is re-entered
     for _ in range(rng.randrange(3, 14)):
       t = rng.randrange(nt)
-      code = rng.choice([0, 1, 2, 2, 3, 3, 4, 4, 3])
+      code = rng.choice([0, 1, 2, 2, 3, 3, 4, 4, 3, 6, 7])
       if code == 3:
         if not kinds[t]:
           code = 0
         elif kinds[t][-1] == 'd':
           code = 5
       arg = -1
-      if code in (1, 2):
+      if code in (1, 2, 6):
         arg = rng.choice([-1, -2, 1, 2, 3, 10, 11])
       if code == 4:
         arg = rng.choice([deco_arg, deco_arg, deco_arg, -2, -1, 2])
@@ -117,6 +123,14 @@ class C02(core.Property):
     return {'sched': ops, 'threads': nt}
 
   def shrink(self, case):
+    if 'leafless' in case:
+      cl = case['clients']
+      for i in range(len(cl)):
+        if len(cl) > 1:
+          yield {**case, 'clients': cl[:i] + cl[i + 1:]}
+      if case['D'] > 1:
+        yield {**case, 'D': 1}
+      return
     if 'sched' in case:
       ops = case['sched']
       for i in range(len(ops)):
@@ -147,7 +161,51 @@ class C02(core.Property):
   def evaluate(self, case, ctx):
     if 'sched' in case:
       return self._eval_sched(case, ctx)
+    if 'leafless' in case:
+      return self._eval_leafless(case, ctx)
     return self._eval_prog(case, ctx)
+
+  def _eval_leafless(self, case, ctx):
+    """Client programs without a per-client input (None, as ModelEvaluator.evaluate_global_params passes) and /
+    or with an empty state pytree: legal programs, every backend must still equal the sequential fold."""
+    jax, jnp, fec = self.jax, self.jnp, self.fec
+    mode, D = case['leafless'], case['D']
+    noinput, nostate = mode in ('noinput', 'both'), mode in ('nostate', 'both')
+    def init(shared, inp):
+      base = shared['s'] if noinput else shared['s'] + inp['i']
+      return () if nostate else {'a': base}
+    def step(st, batch):
+      s = jnp.sum(batch['x'])
+      return (() if nostate else {'a': 2 * st['a'] + s}), {'r': s + 1}
+    def final(shared, st):
+      return {'o': shared['s'] * (3.0 if nostate else st['a'])}
+    mk = lambda: [(cid, [{'x': jnp.asarray([b, 0], dtype=jnp.float32)} for b in bs], None if noinput else {'i': jnp.float32(j)})
+                  for j, (cid, bs) in enumerate(case['clients'])]
+    shared = {'s': jnp.float32(case['shared'])}
+    backend = fec.ForEachClientPmapBackend(jax.local_devices()[:D]) if case['backend'] == 'pmap' else case['backend']
+    tags = ('leafless', f'mode={mode}', f'backend={case["backend"]}')
+    problems = []
+    try:
+      with fec.for_each_client_backend(backend):
+        f = fec.for_each_client(init, step, final, with_step_result=True)
+      res = {cid: (frac_list(out['o']), [frac_list(r['r'])[0] for r in srs]) for cid, out, srs in f(shared, mk())}
+    except Exception as e:
+      return Outcome(oracle_fail=f'backend {case["backend"]} (D={D}) raised {type(e).__name__}: {str(e)[:200]} on a client program '
+                     f'with {"no per-client input (None)" if noinput else ""}{" and " if mode == "both" else ""}{"an empty state pytree" if nostate else ""}',
+                     key=f'C02/{case["backend"]}/leafless-program-raises', tags=tags, nontrivial=True)
+    with jax.disable_jit():
+      for cid, bs, ci in mk():
+        st, rs = init(shared, ci), []
+        for bb in bs:
+          st, r = step(st, bb)
+          rs.append(frac_list(r['r'])[0])
+        want = (frac_list(final(shared, st)['o']), rs)
+        if res.get(cid) != want:
+          problems.append(f'client {cid}: {res.get(cid)} != sequential fold {want}')
+    if sorted(res) != sorted(c[0] for c in case['clients']):
+      problems.append(f'result ids {sorted(res)} != input ids')
+    ctx.count('leafless_programs')
+    return Outcome(oracle_fail='; '.join(problems[:3]) or None, nontrivial=True, tags=tags)
 
   @staticmethod
   def _rid(case, mid):
@@ -346,7 +404,7 @@ class C02(core.Property):
       stack = []
 
       def respond(got, verr, ddepth):
-        rs[t].put((got, verr, self._label(fec._BACKEND_CHOICE.backend), len(stack) + ddepth))
+        rs[t].put((got, verr, self._label(fec.get_for_each_client_backend()), len(stack) + ddepth))
 
       def loop(ddepth, announce):
         if announce:
@@ -393,6 +451,15 @@ class C02(core.Property):
               if by_exc:
                 raise (GeneratorExit if by_exc == 2 else KeyError)('boom')
               return
+            elif code == 6:
+              contextvars.copy_context().run(fec.set_for_each_client_backend, self._arg(arg))
+            elif code == 7:
+              box = []
+              cctx = contextvars.copy_context()   # what asyncio.to_thread / run_in_executor hand to a worker
+              th = threading.Thread(target=lambda: box.append(cctx.run(lambda: self._label(fec.get_for_each_client_backend()))))
+              th.start()
+              th.join(30)
+              got = box[0] if box else 'no-answer'
             elif code == 9:
               pass
           except ValueError:
@@ -424,17 +491,38 @@ class C02(core.Property):
         q.put(None)
       for th in threads:
         th.join(timeout=10)
-    ans = ctx.drv.ask1('c02.tl', 1, nt, [[t, {4: 2, 5: 3}.get(code, code), arg] for t, code, arg, _ in sched])
+    # the model knows get/set/enter/exit; op 6 is a set as far as a thread-scoped choice is concerned, op 7
+    # (a read in another thread) is judged by the oracle only. The choice is observed through the public
+    # get_for_each_client_backend(), which cannot tell "unset" from the default (jit) backend: both are 1.
+    canon = lambda x: 1 if x is None else x
+    midx = [i for i, o in enumerate(sched) if o[1] != 7]
+    ans = ctx.drv.ask1('c02.tl', 1, nt, [[sched[i][0], {4: 2, 5: 3, 6: 1}.get(sched[i][1], sched[i][1]), sched[i][2]] for i in midx])
     corr, problems = [], []
-    if ans != obs:
-      for i, (a, o) in enumerate(zip(ans, obs)):
-        if a != o:
-          corr.append(f'op {i} {sched[i]}: model {a} vs impl {o}')
-          break
+    for a, i in zip(ans, midx):
+      o = obs[i]
+      a_c = [canon(a[0]) if sched[i][1] == 0 else a[0], a[1], [canon(x) for x in a[2]], a[3]]
+      o_c = [o[0], o[1], [canon(x) for x in o[2]], o[3]]
+      if a_c != o_c:
+        corr.append(f'op {i} {sched[i]}: model {a_c} vs impl {o_c}')
+        break
     # independent oracle: per-thread bracket discipline (restore on exit, other threads untouched)
     saved = [[] for _ in range(nt)]
-    prev = [None] * nt
+    prev = [1] * nt
     for (t, code, arg, by_exc), (got, verr, curs, depths) in zip(sched, obs):
+      curs = [canon(x) for x in curs]
+      if code == 7:
+        if got != 1:
+          problems.append(f'a fresh thread running inside a copy of thread {t}\'s contextvars context (what asyncio.to_thread '
+                          f'does) sees backend {got} instead of the default: the selection is not scoped to the thread')
+        if curs[t] != prev[t]:
+          problems.append('reading the choice from another thread changed it')
+      if code == 6:
+        want6 = prev[t] if arg == -2 else canon({-1: None, 1: 1, 2: 2, 3: 3}.get(arg, arg))
+        if curs[t] != want6:
+          problems.append(f'set_for_each_client_backend called inside a copied contextvars context in thread {t} is not '
+                          f'visible afterwards in the same thread (sees {curs[t]}, set {want6}): the selection is not scoped to the thread')
+        if arg == -2 and not verr:
+          problems.append('unsupported backend name accepted')
       for u in range(nt):
         if u != t and curs[u] != prev[u]:
           problems.append(f'op of thread {t} changed the choice seen by thread {u}')
